@@ -12,6 +12,7 @@ import os
 
 import rwcommon as rw
 import vf
+import wiring
 
 
 def split(lines):
@@ -31,6 +32,9 @@ def run(ctx):
     obs = rw.replay(ctx, scs)
     keys = ['X-Keep', 'X-Multi', 'X-Empty', 'Connection', 'X-Hop', 'Te', 'Keep-Alive', 'Upgrade', 'Accept-Encoding', 'host', 'target']
     n, samples = rw.judge(ctx, scs, obs, keys, lambda sc, kind, key: {'query_has_semicolon': ';' in sc['req']['path']})
+    wsc, wobs = wiring.replay_rewrite(ctx, scs, limit=120)
+    nw, _ = rw.judge(ctx, wsc, wobs, keys, lambda sc, kind, key: {'via': 'real_wiring', 'query_has_semicolon': ';' in sc['req']['path']}) if wsc else (0, [])
+    n += nw
     drv = ctx.build_driver('c08driver')
     trace = os.path.join(ctx.scratch, 'c08.ndjson')
     rep = os.path.join(ctx.scratch, 'c08_report.json')
